@@ -72,7 +72,7 @@ let run (_prefix : string) (cfg : config) (parts : string list) (_src : string)
       | Some i, Some o ->
           let sc = { sc_plus = plus_enabled cfg; sc_tpl = tpl_enabled cfg;
                      sc_methods = List.map (fun m -> m.m_src) (List.filter (fun m -> not m.m_operator) cfg.c_methods);
-                     sc_lit_callers = cfg.c_lit_callers } in
+                     sc_lit_callers = (if cfg.c_lit_callers = [] then [] else documented_lit_callers) } in
           let req = required_sites sc i in
           let miss = missing_sites sc i o in
           let js (s : site) = JO [ ("lo", JI (int_of_n (fst s.s_key))); ("hi", JI (int_of_n (snd s.s_key)));
